@@ -132,7 +132,7 @@ def gen_history(rng):
     rows, cols = rng.randint(2, 8), rng.randint(3, 6)
     steps = []
     for _ in range(rng.randint(1, 5)):
-        steps.append({"h": rng.random(), "len": rng.random(), "cursor": rng.random(), "d": rng.random(),
+        steps.append({"h": rng.random(), "tall": rng.random() < .3, "len": rng.random(), "cursor": rng.random(), "d": rng.random(),
                       "nested": rng.random() < .3, "d2": rng.random(), "extra_query": rng.random() < .2,
                       "d3": rng.random()})
     case = {"kind": "history", "rows": rows, "cols": cols, "pre": rng.randint(0, rows - 1), "steps": steps}
@@ -178,7 +178,7 @@ def run_history(ctx, case):
                 top = w.top_usable_row
                 if not (0 <= top < rows):
                     break
-                h = pick(st["h"], 0, rows - top)
+                h = pick(st["h"], 0, rows - top + (3 if st.get("tall") else 0))
                 arr = [fmtstr("x" * pick(st["len"], 0, cols)) for _ in range(h)]
                 cp = (pick(st["cursor"], 0, max(0, h - 1)), 0)
                 w.render_to_terminal(arr, cp)
